@@ -11,7 +11,7 @@
  *   <state> = <key> <pattern> <fallback> <trans>
  *     key      hex words of the prefix ("-" = root)
  *     pattern  "-" when hyphenPattern == 0, else "p" followed by the digit string
- *     fallback "^" for 0xffff, else the key of the fallback state, "?<n>" when that
+ *     fallback "^" for the no-state sentinel, else the key of the fallback state, "?<n>" when that
  *              state was not reached from the root
  *     trans    "." when none, else comma separated, ascending by character:
  *              <ch> when the target's key is key+ch, <ch>><targetkey> otherwise
@@ -50,6 +50,8 @@ doHypDump(const char *list) {
 	const HyphenationState *states;
 	HypNode *nodes;
 	int *nodeOf; /* state number -> node index + 1 */
+	size_t nodeOfCap;
+	const unsigned int noState = sizeof(states->fallbackState) == 2 ? 0xffffu : 0xffffffffu;
 	widechar *pool;
 	size_t poolLen = 0, poolCap = 1 << 16;
 	int nNodes = 0, capNodes = 1024, head, i, k;
@@ -59,7 +61,8 @@ doHypDump(const char *list) {
 	}
 	states = (const HyphenationState *)&t->ruleArea[t->hyphenStatesArray];
 	nodes = malloc(capNodes * sizeof(HypNode));
-	nodeOf = calloc(65536, sizeof(int)); /* state numbers are widechar */
+	nodeOfCap = 1 << 16;
+	nodeOf = calloc(nodeOfCap, sizeof(int));
 	pool = malloc(poolCap * sizeof(widechar));
 	nodes[0].state = 0;
 	nodes[0].keyOff = 0;
@@ -74,8 +77,15 @@ doHypDump(const char *list) {
 		memcpy(tr, &t->ruleArea[s->trans.offset], s->numTrans * sizeof(HyphenationTrans));
 		qsort(tr, s->numTrans, sizeof(HyphenationTrans), hypTransCmp);
 		for (k = 0; k < s->numTrans; k++) {
-			int target = tr[k].newState;
+			unsigned int target = tr[k].newState;
 			int len = nodes[head].keyLen;
+			if (target >= nodeOfCap) {
+				size_t nc = nodeOfCap;
+				while (target >= nc) nc *= 2;
+				nodeOf = realloc(nodeOf, nc * sizeof(int));
+				memset(nodeOf + nodeOfCap, 0, (nc - nodeOfCap) * sizeof(int));
+				nodeOfCap = nc;
+			}
 			if (nodeOf[target]) continue;
 			if (nNodes == capNodes) {
 				capNodes *= 2;
@@ -104,12 +114,12 @@ doHypDump(const char *list) {
 			printf(" p%s ", (const char *)&t->ruleArea[s->hyphenPattern]);
 		else
 			printf(" - ");
-		if (s->fallbackState == 0xffff)
+		if (s->fallbackState == noState)
 			printf("^");
-		else if (nodeOf[s->fallbackState])
+		else if (s->fallbackState < nodeOfCap && nodeOf[s->fallbackState])
 			hypPrintKey(pool, &nodes[nodeOf[s->fallbackState] - 1]);
 		else
-			printf("?%d", (int)s->fallbackState);
+			printf("?%u", (unsigned int)s->fallbackState);
 		printf(" ");
 		if (!s->trans.offset || !s->numTrans)
 			printf(".");
